@@ -388,6 +388,38 @@ func draw(t *rapid.T) Case {
 			cs.Pol = pol.Policy{{Op: "and", Sub: []pol.Stmt{like, {Op: "like", Sel: sel.Sel{{Kind: "field", Name: "s"}}, Pat: "a*"}}}}
 		}
 	}
+	if rapid.IntRange(0, 11).Draw(t, "focusconfusable") == 0 {
+		// field names that SPELL a structured selector ("a.b", "x?", "l[0]", "a[]"), next to the structure they
+		// spell, addressed by several top-level statements: .["a.b"] and .a.b are different selectors
+		x, y := val.Int(int64(rapid.IntRange(0, 3).Draw(t, "cx"))), val.Int(int64(rapid.IntRange(0, 3).Draw(t, "cy")))
+		entries := []val.KV{}
+		add := func(k string, v val.V) {
+			if rapid.IntRange(0, 3).Draw(t, "chas_"+k) > 0 {
+				entries = append(entries, val.KV{K: k, V: v})
+			}
+		}
+		add("a.b", x)
+		add("a", val.Map(val.E("b", y)))
+		add("x?", x)
+		add("x", y)
+		add("l[0]", x)
+		add("l", val.List(y, x))
+		add("a[]", x)
+		cs.Data = val.V{K: "map", M: entries}
+		sels := []sel.Sel{
+			{{Kind: "qfield", Name: "a.b"}}, {{Kind: "field", Name: "a"}, {Kind: "field", Name: "b"}},
+			{{Kind: "qfield", Name: "x?"}}, {{Kind: "field", Name: "x", Opt: true}}, {{Kind: "field", Name: "x"}},
+			{{Kind: "qfield", Name: "l[0]"}}, {{Kind: "field", Name: "l"}, {Kind: "index", Idx: 0}},
+			{{Kind: "qfield", Name: "a[]"}}, {{Kind: "field", Name: "a"}, {Kind: "iter"}},
+			{{Kind: "qfield", Name: "a.b", Opt: true}}, {{Kind: "qfield", Name: "x?", Opt: true}},
+		}
+		n := rapid.IntRange(2, 4).Draw(t, "cn")
+		cs.Pol = nil
+		for i := 0; i < n; i++ {
+			lit := val.Int(int64(rapid.IntRange(0, 3).Draw(t, "clit")))
+			cs.Pol = append(cs.Pol, pol.Stmt{Op: rapid.SampledFrom([]string{"==", "==", ">=", "<"}).Draw(t, "cop"), Sel: rapid.SampledFrom(sels).Draw(t, "csel"), Lit: &lit})
+		}
+	}
 	forceCtor := false
 	if rapid.IntRange(0, 11).Draw(t, "focusbigint") == 0 {
 		// ordered comparisons between integers of large magnitude that differ by 1 or 2 (exact int64 arithmetic
